@@ -298,6 +298,18 @@ def run(chk):
         add(f"let d := dyn_of Z Z Z.leb {pairs} in fst d ++ snd d", got_t + got_s, {"kind": "Dynamics.add", "times": ts},
             ("dyn", tuple(ts)))
         chk.count("Dynamics.add")
+        # the same (time, state) pairs handed to the constructor as two lists (e.g. two consecutive runs merged, the later first)
+        try:
+            dyn2 = Dynamics([float(t) / 4 for t in ts], [np.array([[j]], dtype=complex) for j in range(k)])
+            c_t, c_s = [int(round(t * 4)) for t in dyn2.times], [int(s[0, 0].real) for s in dyn2.states]
+        except Exception as ex:
+            chk.fail("dynamics-unsorted", f"Dynamics(times, states) raises {ex!r}", {"times": ts})
+            continue
+        chk.search_cases += 1
+        if c_t != sorted(ts) or any(ts[s] != t for t, s in zip(c_t, c_s)) or sorted(c_s) != list(range(k)):
+            chk.fail("dynamics-unsorted", "Dynamics(times, states): times not sorted or a state detached from its time", {"times": ts, "constructor": True})
+        add(f"let d := dyn_of Z Z Z.leb {pairs} in fst d ++ snd d", c_t + c_s, {"kind": "Dynamics(times, states)", "times": ts},
+            ("dyn-ctor", tuple(ts)))
 
     # ---- (c2) MeanFieldDynamics.add: the same rule for every system and for the field ------------------
     from oqupy.dynamics import MeanFieldDynamics
@@ -319,6 +331,19 @@ def run(chk):
         if not ok:
             chk.fail("meanfield-dynamics-unsorted", "MeanFieldDynamics.add: times not sorted, or a field / a system's state detached from its time, "
                      "or field_expectations() not aligned with times", {"times": ts, "systems": nsys})
+        try:
+            mfd2 = MeanFieldDynamics([float(t) / 4 for t in ts], [[np.array([[j + 100 * q]], dtype=complex) for q in range(nsys)] for j in range(k)],
+                                     [complex(j, -j) for j in range(k)])
+            c_t, c_f = [int(round(t * 4)) for t in mfd2.times], [int(round(f.real)) for f in mfd2.fields]
+            ok2 = c_t == got_t and all(ts[j] == t for t, j in zip(c_t, c_f)) and sorted(c_f) == list(range(k))
+            for q, sd in enumerate(mfd2.system_dynamics):
+                ok2 = ok2 and [int(round(t * 4)) for t in sd.times] == c_t and [int(round(s_[0, 0].real)) - 100 * q for s_ in sd.states] == c_f
+        except Exception as ex:
+            ok2 = False
+        chk.search_cases += 1
+        if not ok2:
+            chk.fail("meanfield-dynamics-unsorted", "MeanFieldDynamics(times, states, fields): times not sorted, or a field / a system's state detached from its time",
+                     {"times": ts, "systems": nsys, "constructor": True})
         pairs = coq_list([f"({zlit(t)}, {j})" for j, t in enumerate(ts)])
         add(f"let d := dyn_of Z Z Z.leb {pairs} in fst d ++ snd d", got_t + got_f, {"kind": "MeanFieldDynamics.add", "times": ts, "systems": nsys},
             ("mfdyn", tuple(ts), nsys))
